@@ -6,6 +6,7 @@ import re
 import collections
 from collections import deque
 from collections.abc import Iterable, Iterator, Mapping, Sequence
+from collections.abc import Set as AbstractSet
 from datetime import date, datetime, time, timedelta, timezone
 from decimal import Decimal
 from enum import Enum
@@ -215,6 +216,11 @@ class TypeTransformer:
         if not getattr(t, "__abstractmethods__", None):
             return t(value)
         # if type is still abstracted, just returning the list result
+        if issubclass(t, Iterator):
+            # (a list is not an Iterator)
+            return iter(value)
+        if issubclass(t, AbstractSet):
+            return set(value)
         return value
 
     @registry.register(Mapping)
